@@ -42,6 +42,7 @@ import (
 type MemberPlan struct {
 	Start       int      `json:"start"`       // chain height at which deploy.Deploy is launched
 	AfterNotary bool     `json:"afterNotary"` // launched only once the Notary role is designated (absent during bootstrap)
+	AfterBoot   int      `json:"afterBoot"`   // > 0: launched that many blocks after the leader's shared data record appeared
 	Pauses      [][2]int `json:"pauses"`      // [from, k]: new-block notifications withheld while from <= height < from+k
 	Cancels     [][2]int `json:"cancels"`     // [b, b2]: context cancelled at height b, fresh run started at height b2
 }
@@ -108,6 +109,7 @@ type world struct {
 	fwSince  int
 	fwTotal  int
 	prevFw   int
+	bootAt   int // height at which the shared transaction data record was first seen (-1: not yet)
 }
 
 func addMap(dst, src map[string]int) {
@@ -366,6 +368,9 @@ func (w *world) observe() (chain.Rec, string) {
 		}
 		for _, d := range bdoms {
 			st, recs := w.records(nns, "designate-committee-notary-"+d+".bootstrap")
+			if d == "tx" && st == "rec" && w.bootAt < 0 {
+				w.bootAt = int(bc.BlockHeight())
+			}
 			idx := -1
 			fmt.Sscanf(d, "%d", &idx)
 			boot = append(boot, chain.Rec{"dom": d, "idx": idx, "st": st, "n": len(recs)})
@@ -431,7 +436,7 @@ func (w *world) memRecs() ([]chain.Rec, string) {
 		}
 		badSig := 0
 		for k, v := range r {
-			if strings.HasPrefix(k, "tx:designate:") && (strings.HasSuffix(k, ":invalidsig") || strings.HasSuffix(k, ":verification")) {
+			if strings.HasPrefix(k, "tx:designate:") && strings.HasSuffix(k, ":invalidsig") { // -508: a witness does not verify
 				badSig += v
 			}
 		}
@@ -497,7 +502,8 @@ func (w *world) phase(budget int, schedule bool) (why string, lastChange int) {
 			if !schedule {
 				p = MemberPlan{}
 			}
-			if m.state == "off" && m.runs == 0 && h-start >= p.Start && (!p.AfterNotary || w.notaryDesignated()) {
+			if m.state == "off" && m.runs == 0 && h-start >= p.Start && (!p.AfterNotary || w.notaryDesignated()) &&
+				(p.AfterBoot <= 0 || (w.bootAt >= 0 && h >= w.bootAt+p.AfterBoot)) {
 				w.launch(m)
 			}
 			if m.cancels < len(p.Cancels) {
@@ -604,7 +610,7 @@ func TestE2E(t *testing.T) {
 		}
 	}
 	t0 := time.Now()
-	w := &world{t: t, sc: sc, fs: map[string]contracts.Contract{}, nefSum: map[string]uint32{}, logDir: os.Getenv("VERIF_E2E_LOGDIR")}
+	w := &world{t: t, sc: sc, fs: map[string]contracts.Contract{}, nefSum: map[string]uint32{}, logDir: os.Getenv("VERIF_E2E_LOGDIR"), bootAt: -1}
 	fs, err := contracts.GetFS()
 	require.NoError(t, err)
 	for _, c := range fs {
